@@ -204,9 +204,10 @@ class Path(object):
 
 class Explorer(object):
     """Runs a thunk along all feasible paths."""
-    def __init__(self, feas_timeout_ms=1500, max_paths=4000):
+    def __init__(self, feas_timeout_ms=1500, max_paths=4000, feas_skip_quant=False):
         self.feas_timeout_ms = feas_timeout_ms
         self.max_paths = max_paths
+        self.feas_skip_quant = feas_skip_quant
 
     def explore(self, thunk, base_conds=(), base_facts=()):
         pending = [[]]
@@ -249,6 +250,8 @@ class Run(object):
         for c in self.path.conds:
             s.add(c)
         for c in self.path.facts:
+            if self.explorer.feas_skip_quant and z3.is_quantifier(c):
+                continue
             s.add(c)
         s.add(extra)
         return s.check() != z3.unsat
@@ -536,8 +539,13 @@ class Interp(object):
             if s.finalbody:
                 self.exec_block(s.finalbody, frame)
 
+    def has_loop_contract(self, s):
+        return False
+
     def stmt_While(self, s, frame):
         n = 0
+        if self.has_loop_contract(s):
+            return self.symbolic_while(s, frame, None)
         while True:
             c = self.eval(s.test, frame)
             if is_sym(c):
@@ -1119,6 +1127,8 @@ class Interp(object):
 
     def equal(self, a, b, node, identity=False):
         ka, kb = kind_of(a), kind_of(b)
+        if ka == 'obj' and kb == 'obj' and isinstance(a, SV) and isinstance(b, SV):
+            return a.t == b.t
         if ka == 'none' or kb == 'none':
             other, ko = (b, kb) if ka == 'none' else (a, ka)
             if ko == 'none':
@@ -1282,6 +1292,8 @@ class Interp(object):
             return self.call_function(f.__func__, [f.__self__] + list(args), kwargs, node)
         if isinstance(f, types.FunctionType) and self.repo_function(f) and anysym:
             return self.call_function(f, list(args), kwargs, node)
+        if anysym and isinstance(f, type) and issubclass(f, BaseException):
+            return f(*[a if not is_sym(a) else f'<symbolic {kind_of(a)}>' for a in args])
         if anysym:
             h = _SYM_BUILTINS.get(f) if isinstance(f, (types.BuiltinFunctionType, type)) else None
             if h is not None:
